@@ -72,6 +72,39 @@ class SList:
         return And(self.n <= other.n, so.forall_idx(self.n, lambda i: self.a[i] == other.a[i]))
 
 
+class SHeap(SList):
+    """heapq-managed list of event records.  Model: append-only list + ghost set of popped ('dead') indices,
+    ndead = number of dead indices (so len = n - ndead).  Assumed heapq contract: heappush adds an item,
+    heappop removes a minimal one."""
+    kind = 'heap'
+
+    def __init__(self, esort, n=None, a=None, dead=None, ndead=None, name='h'):
+        SList.__init__(self, esort, n, a, name)
+        self.dead = dead if dead is not None else fresh(name + '_dead', z3.ArraySort(I, B))
+        self.ndead = ndead if ndead is not None else fresh(name + '_ndead', I)
+
+    def snap(self):
+        return SHeap(self.esort, self.n, self.a, self.dead, self.ndead, self.name)
+
+    def havoc(self):
+        SList.havoc(self)
+        self.dead = fresh(self.name + '_dead', z3.ArraySort(I, B))
+        self.ndead = fresh(self.name + '_ndead', I)
+
+    def wellformed(self):
+        return And(SList.wellformed(self), 0 <= self.ndead, self.ndead <= self.n,
+                   (self.n - self.ndead > 0) == so.exists_idx(self.n, lambda j: Not(self.dead[j])))
+
+    def alive(self, j):
+        return And(0 <= j, j < self.n, Not(self.dead[j]))
+
+    def size(self):
+        return self.n - self.ndead
+
+    def terms(self):
+        return [self.n, self.a, self.dead, self.ndead]
+
+
 class SDict:
     """dict / defaultdict / Counter.  dom: Array K Bool, val: Array K V.
     Normal form: for a map with a default value d, val[k] == d whenever not dom[k] (maintained by
